@@ -66,12 +66,16 @@ func (r *c05Run) filler(n int) []byte {
 
 func runC05(c *Ctx) {
 	r := &c05Run{c: c, parts: map[string]float64{}}
-	c05RemLen(r)
-	c05PackBodies(r)
-	c05PackPublish(r)
-	c05PackConnect(r)
-	c05PackSubscribe(r)
-	c05PackAcks(r)
+	if mqtt.VerifHasCodec {
+		c05RemLen(r)
+		c05PackBodies(r)
+		c05PackPublish(r)
+		c05PackConnect(r)
+		c05PackSubscribe(r)
+		c05PackAcks(r)
+	} else {
+		c.Note("C05: the white-box wrapper around the packet structs does not compile against this tree; the Pack-level enumeration is skipped, only the client-level parts (bytes on the wire of real clients) are judged")
+	}
 	c05Client(r)
 	if c.Res.Parts == nil {
 		c.Res.Parts = map[string]any{}
